@@ -837,8 +837,10 @@ pub fn requested_ranges(hdr: &[u8], len: u128) -> Vec<(u128, u128)> {
     out
 }
 
-pub const CONDS: [&str; 18] = [
+pub const CONDS: [&str; 20] = [
     "none",
+    "if-none-match:weak-etag",
+    "if-match:weak-etag",
     "if-match:etag",
     "if-match:other",
     "if-match:*",
@@ -881,6 +883,7 @@ fn cond_headers(cond: &str, meta: &FileMeta) -> Vec<(String, String)> {
         let (name, kind) = part.split_once(':').unwrap();
         let val = match kind {
             "etag" => meta.etag.clone(),
+            "weak-etag" => format!("W/{}", meta.etag),
             "other" => "\"0:0:0:0\"".to_string(),
             "*" => "*".to_string(),
             "same" => meta.last_modified.clone(),
@@ -1092,6 +1095,10 @@ pub async fn check_range(
     let sized: Option<u128> = out.size.parse().ok();
     let cl_hdr = out.headers.get("content-length").and_then(|v| v.first()).cloned();
     let cr = out.headers.get("content-range").and_then(|v| v.first()).cloned();
+    // RFC 7232 3.2: If-None-Match compares weakly, so the weak form of the current tag matches
+    if case.cond == "if-none-match:weak-etag" && case.range.is_none() && out.status != 304 {
+        v.push(mk("b-conditional", format!("weak-if-none-match-not-304:{lc}"), format!("If-None-Match carries the weak form of the current entity tag (weak comparison applies): expected 304, got {}", out.status)));
+    }
     match out.status {
         200 => {
             match &out.body {
@@ -1187,6 +1194,9 @@ pub async fn check_range(
             }
         }
         304 | 412 => {
+            if case.cond == "if-match:weak-etag" && case.range.is_none() && out.status != 412 {
+                v.push(mk("b-conditional", format!("weak-if-match-not-412:{lc}"), format!("If-Match with the weak form of the current entity tag must fail (strong comparison): status {}", out.status)));
+            }
             // a 304 answers If-None-Match / If-Modified-Since, a 412 answers If-Match /
             // If-Unmodified-Since; without such a header there is nothing to answer
             let needs: [&str; 2] = if out.status == 304 { ["if-none-match", "if-modified-since"] } else { ["if-match", "if-unmodified-since"] };
